@@ -5,6 +5,7 @@ import (
 	"fmt"
 	"runtime"
 	"sync"
+	"sync/atomic"
 	"testing"
 	"time"
 
@@ -137,6 +138,10 @@ func TestC14Release(t *testing.T) {
 			getIDs = append(getIDs, rapid.SampledFrom(ids).Draw(rt, "getid"))
 		}
 		closeChildFirst := rapid.Bool().Draw(rt, "closeChildFirst")
+		// in some cycles a resolution is still inside a constructor when the scope is closed: what it
+		// finishes constructing afterwards belongs to nobody and must be released like everything else
+		lateEvery := rapid.SampledFrom([]int{0, 0, 1, 3}).Draw(rt, "lateEvery")
+		late := 0
 
 		// a few unmeasured warm-up cycles first: anything the container starts once (not per scope) is part of the baseline
 		for i := 0; i < 3; i++ {
@@ -200,6 +205,38 @@ func TestC14Release(t *testing.T) {
 					scopeHandles = append(scopeHandles, godi.VerifWeakScope(c))
 					chain = append(chain, c)
 				}
+				if lateEvery > 0 && i%lateEvery == 0 && len(getIDs) > 0 {
+					id := getIDs[i%len(getIDs)]
+					tgt := chain[len(chain)-1]
+					var goid atomic.Int64
+					pk := kit.NewParker(func(gp kit.GatePoint) bool { return gp.Kind == kit.GateCtorExit && gp.Goid == goid.Load() })
+					w.SetGate(pk.Gate)
+					done := make(chan struct{})
+					go func() {
+						defer close(done)
+						goid.Store(kit.Goid())
+						switch {
+						case id.Group != "":
+							_, _ = tgt.GetGroup(kit.RType(id.T), id.Group)
+						case id.Key != "":
+							_, _ = tgt.GetKeyed(kit.RType(id.T), id.Key)
+						default:
+							_, _ = tgt.Get(kit.RType(id.T))
+						}
+					}()
+					select {
+					case <-pk.Parked():
+						late++
+					case <-done:
+					}
+					_ = s.Close()
+					pk.Release()
+					if !kit.WaitOrTimeout(done, 20*time.Second) {
+						f = fail("C14", "no-hang", "late", "a resolution overlapping the Close of its scope did not return (cycle %d)", i)
+					}
+					w.SetGate(nil)
+					return
+				}
 				for gi, id := range getIDs {
 					tgt := chain[(i+gi)%len(chain)]
 					switch {
@@ -233,6 +270,9 @@ func TestC14Release(t *testing.T) {
 		}
 		if useParentScope {
 			labels = append(labels, "long-lived-parent-scope")
+		}
+		if late > 0 {
+			labels = append(labels, "constructions-overlapping-close")
 		}
 		canon := fmt.Sprintf("%s || N=%d nest=%d ctx=%v gets=%v faultEvery=%d parentScope=%v childFirst=%v", cfg, N, nest, ctxKinds, getIDs, faultEvery, useParentScope, closeChildFirst)
 		col.Case(N >= 10 || nest > 0 || failedCreates > 0, canon, canon, labels...)
